@@ -554,3 +554,39 @@ def binary_arm_reader_accepts_any_bytes(rep, rule, prog, cg):
                     rep.bad(rule, key, val[0].loc(), 'skipper %s skips every Binary value through %s %s, which validates UTF-8 (%s): a binary payload that is not UTF-8 makes skip fail, so the fields after it are never decoded' % (sname, fname, rn, short(val[0].callee)))
                 else:
                     rep.ok(rule, key, 'no UTF-8 validation on the path the skipper uses for Binary', r.loc())
+
+
+def default_skipper_binary_arm(rep, rule, prog):
+    """the fixed-width default skipper, Binary arm: it reads the i32 length through the protocol, advances by exactly that
+    length, and reports 4 + length (the retained-unknown-field code slices the input by the reported count)"""
+    b = find_skippers(prog).get('sync_default')
+    if b is None:
+        rep.anchor_missing(rule, 'default skipper')
+        return
+    sw = type_switch(b, prog)
+    reg = arm_regions(b, sw).get('Binary', ()) if sw else ()
+    key = '%s|default skipper|arm Binary' % rule
+    if not reg:
+        rep.anchor_missing(rule, 'Binary arm of the default skipper')
+        return
+    reads = [cs for cs in b.calls() if cs.bb in reg and cs.name == 'read_i32']
+    advs = [cs for cs in b.calls() if cs.bb in reg and cs.name == 'advance']
+    adds = []
+    for bi in reg:
+        for st in b.bbs[bi]['st']:
+            r = st.get('r', {})
+            if r.get('k') == 'bin' and r['op'] in ('Add', 'AddWithOverflow'):
+                adds.append((mirlib.nosite(b.expr_op(r['a'])), mirlib.nosite(b.expr_op(r['b']))))
+    from mirlib import strip_casts as _sc
+
+    def is_len(e):
+        e = _sc(e)
+        while e and e[0] in ('field',) and e[2] == '0':
+            e = _sc(e[1])
+        return bool(e) and e[0] == 'try' and e[1][0] == 'call' and e[1][1].endswith('read_i32')
+    adv_ok = len(advs) == 1 and is_len(advs[0].arg(1))
+    four_plus_len = any((a == ('const', 4) and is_len(c)) or (c == ('const', 4) and is_len(a)) for a, c in adds)
+    if len(reads) == 1 and adv_ok and four_plus_len:
+        rep.ok(rule, key, 'advance(length), count += 4 + length', reads[0].loc())
+    else:
+        rep.bad(rule, key, reads[0].loc() if reads else b.loc(), 'default skipper, Binary arm: expected one read_i32, advance(length) and count += 4 + length (found %d reads, advance by length=%s, 4 + length added=%s): the reported count no longer equals the bytes consumed' % (len(reads), adv_ok, four_plus_len))
